@@ -55,3 +55,11 @@ prop("C16", level="proof", runtime=True,
                   "sum(): congruence / lower-bound / first-element facts (trusted)",
                   "DTLZ2-4: dimension = m + 9 (k = 10 distance variables, as hard-coded); DTLZ1: any k >= 1"],
      not_decided=["'the Pareto-optimal set maps onto the simplex / unit sphere' is the instance g = 0 of the proved identities"])
+prop("C17", level="proof", runtime=True,
+     assumptions=["A1 real arithmetic for the coordinate differences of the epsilon indicator",
+                  "Results.goal_index / parameter_index (next() over a generator) are assumed contracts, checked at run time only",
+                  "eps_equals_shift uses the existence of a minimal reference point (finite strict partial order; Mathlib lemma "
+                  "Finite.wellFounded_of_trans_of_irrefl + WellFounded.has_min), stated as a hypothesis of the lemma"],
+     not_decided=["generational distance gd(): scipy cdist / numpy reductions are outside the subset: bounded run-time contract only",
+                  "sorted listings (sort_list + independent sort: 'two sorted permutations of one multiset agree'), table(), "
+                  "parameters(), costs(), pareto_front(): not under contract"])
